@@ -405,6 +405,70 @@ def one_case(ctx, cls_name, n, t, preserve, fam, v, info=None, do_tie=True, do_o
     ctx.ok(key, nontrivial=n >= 2, sample={"cls": cls_name, "n": n, "t": t, "preserve": bool(preserve), "family": fam, "err": err})
 
 
+UNREACHED_JUSTIFIED = {}   # after entry_forms() every statement and branch of ucg.py / ucge.py is reached in the quick tier
+
+
+def entry_case(ctx, cls_name, n, t, preserve, fam, v, form, wires=None):
+    """The same property (column t of the operator = v) through the other entry paths of ucg.py / ucge.py:
+    opt_params=None (t = 0), a label, list params, the static `initialize` with qubits=None and with an explicit
+    permuted wire list on a wider host circuit."""
+    from qiskit import QuantumCircuit
+    from qiskit.quantum_info import Operator
+    cls = get_class(cls_name)
+    opt = {"target_state": int(t), "preserve_previous": bool(preserve)}
+    key = f"{cls_name}:entry:{form}:{fam}:n={n}:t={t}:pres={int(preserve)}"
+    rep = {"call": cls_name, "n": n, "t": t, "preserve": bool(preserve), "family": fam, "vector": vec_payload(v),
+           "form": form, "wires": wires}
+    try:
+        if form == "opt-none":
+            circ, wires = cls(np.array(v)).definition, list(range(n))
+        elif form == "label":
+            circ, wires = cls(np.array(v), label="psi", opt_params=opt).definition, list(range(n))
+        elif form == "list":
+            circ, wires = cls([complex(a) for a in v], opt_params=opt).definition, list(range(n))
+        elif form == "static":
+            circ, wires = QuantumCircuit(n), list(range(n))
+            cls.initialize(circ, np.array(v), opt_params=opt)
+        elif form == "static-qubits":
+            circ = QuantumCircuit(n + 1)
+            cls.initialize(circ, np.array(v), qubits=list(wires), opt_params=opt)
+        else:
+            raise ValueError(form)
+    except Exception as e:
+        ctx.fail(key + ":raises", f"{type(e).__name__}: {e}", rep)
+        return
+    ctx.count(f"branch:entry-form:{cls_name}:{form}")
+    u = Operator(circ).data
+
+    def embed(x):
+        return sum(((x >> k) & 1) << wires[k] for k in range(n))
+    want = np.zeros(u.shape[0], dtype=complex)
+    for x in range(2 ** n):
+        want[embed(x)] = v[x]
+    err = float(np.abs(u[:, embed(t)] - want).max())
+    if err > 1e-7:
+        ctx.fail(key, f"column of |t={t}> (on wires {wires}) differs from the vector by {err:.3e}", dict(rep, observed_err=err))
+    else:
+        ctx.ok(key, nontrivial=n >= 2, sample={"cls": cls_name, "n": n, "t": t, "form": form, "err": err})
+
+
+def entry_forms(ctx):
+    r = ctx.nprng()
+    pr = ctx.rng
+    for n in (1, 2, 3):
+        for cls_name in ("ucg", "ucge"):
+            fam = pr.choice(["complex", "zeros", "product", "real"])
+            v, _ = make_vector(r, n, 0, fam)
+            entry_case(ctx, cls_name, n, 0, False, fam, v, "opt-none")
+            for form in ("label", "list", "static", "static-qubits"):
+                t = pr.randrange(2 ** n)
+                preserve = cls_name == "ucg" and pr.random() < 0.5
+                fam = pr.choice(["complex", "zeros", "product", "supp"])
+                v, _ = make_vector(r, n, t, fam)
+                wires = pr.sample(range(n + 1), n) if form == "static-qubits" else None
+                entry_case(ctx, cls_name, n, t, preserve, fam, v, form, wires)
+
+
 def regression_probes(ctx):
     """the carried-diagonal defect of UCGEInitialize._apply_diagonal (fixed in /repo): product states whose
     simplification keeps an asymmetric set of controls."""
@@ -452,6 +516,7 @@ def string_tables(ctx, nmax):
 def run(ctx, nmax_tie=None, nmax_or=None, per_t=None):
     r = ctx.nprng()
     regression_probes(ctx)
+    entry_forms(ctx)
     nmax_tie = nmax_tie or (4 if ctx.quick else 5)
     nmax_or = nmax_or or (5 if ctx.quick else 6)
     string_tables(ctx, 6 if ctx.quick else 8)
@@ -486,5 +551,8 @@ def search(ctx, hints):
 def replay(ctx, payload):
     rp = payload["replay"]
     v = np.array([complex(a, b) for a, b in rp["vector"]])
+    if rp.get("form"):
+        entry_case(ctx, rp["call"], rp["n"], rp["t"], rp["preserve"], rp.get("family", "replay"), v, rp["form"], rp.get("wires"))
+        return
     one_case(ctx, rp["call"], rp["n"], rp["t"], rp["preserve"], rp.get("family", "replay"), v, do_tie=False,
              key=payload.get("key"))
